@@ -436,3 +436,36 @@ func c11SelSpecs() []*bfsSpec {
 }
 
 func TestVerifC11Sel(t *testing.T) { runSpecs(t, "C11", c11SelSpecs()) }
+
+// TestVerifC11Huge: what storrent requests from a seed for the last pieces of a torrent
+// beyond 4 GiB (block numbers >= 2^18, offsets that do not fit 32 bits): every Request
+// names a block of its piece.  The scenarios are C02's (real AddTorrent loop, real peer).
+func TestVerifC11Huge(t *testing.T) {
+	if os.Getenv("VERIF_OUT") == "" {
+		t.Skip("verif harness: run through /verif/run")
+	}
+	res := vh.NewResult("C11")
+	defer func() {
+		os.Setenv("VERIF_SHARD", fmt.Sprintf("%d/100", 80+shardIdx()))
+		if err := res.Write(); err != nil {
+			t.Error(err)
+		}
+	}()
+	work := 0
+	for _, sc := range hugeSeedScenarios() {
+		work++
+		if !vh.Mine(work) {
+			continue
+		}
+		probs, out := runRead(t, sc)
+		res.Add("huge_scenarios", 1)
+		res.Add("evaluations", 1)
+		res.Distinct("huge_outcomes", out)
+		for _, p := range probs {
+			if p.Prop != "C11" || res.HasViolation(p.Key) {
+				continue
+			}
+			res.Violate(p.Key, p.Msg, sc)
+		}
+	}
+}
